@@ -16,29 +16,30 @@ import (
 
 // Scenario = start state + operation alphabet + depth bound of one exhaustive BFS.
 type Scenario struct {
-	Name     string
-	U        *Universe
-	Cfg      Cfg
-	Prefill  []Op // builds the start state
-	Snapshot bool // true: prefill runs once; every run starts from a clone of the resulting DB, freshly Load()ed
-	Keys     []int
-	Rollback bool
-	Reload   bool
-	LoadVer  bool
-	Prune    bool
-	Imm      bool
-	MaxSaves int // versions that may be created beyond the prefill
-	Depth    int
-	Probe    *Probe // nil = every universe key gets point lookups
-	Bounds   []int  // range-iterator bounds (universe indexes, -1 = nil)
-	Hidden   bool   // merge states only if the persisted orphan lists and the size of the uncommitted batch agree too
-	Tail     bool   // run the deterministic save/save/prune-every-prefix/reopen continuation (tail.go) from every new state …
-	TailAbandon bool // … and after EVERY Rollback / LoadVersion(current version) transition, new state or not (a session-abandoning op is expected to lead back to a known state: exactly where a leftover would be merged away)
-	Events   bool   // classify the rebalancing steps of every Set/Remove (events.go)
+	Name        string
+	U           *Universe
+	Cfg         Cfg
+	Prefill     []Op // builds the start state
+	Snapshot    bool // true: prefill runs once; every run starts from a clone of the resulting DB, freshly Load()ed
+	Keys        []int
+	Rollback    bool
+	Reload      bool
+	LoadVer     bool
+	Prune       bool
+	Imm         bool
+	MaxSaves    int // versions that may be created beyond the prefill
+	Depth       int
+	Probe       *Probe // nil = every universe key gets point lookups
+	Bounds      []int  // range-iterator bounds (universe indexes, -1 = nil)
+	Hidden      bool   // merge states only if the persisted orphan lists and the size of the uncommitted batch agree too
+	Tail        bool   // run the deterministic save/save/prune-every-prefix/reopen continuation (tail.go) from every new state …
+	TailAbandon bool   // … and after EVERY Rollback / LoadVersion(current version) transition, new state or not (a session-abandoning op is expected to lead back to a known state: exactly where a leftover would be merged away)
+	Events      bool   // classify the rebalancing steps of every Set/Remove (events.go)
 
-	baseDB    *memdb.MemDB
-	baseModel *Model
-	baseShape map[int64]string
+	shapeCache sync.Map
+	baseDB     *memdb.MemDB
+	baseModel  *Model
+	baseShape  map[int64]string
 	baseLatest int64
 }
 
@@ -77,6 +78,7 @@ func (sc *Scenario) Prepare() error {
 func (sc *Scenario) Start() (*Sys, *Model, string) {
 	if sc.Snapshot {
 		s := NewSysOn(sc.U, sc.Cfg, CloneDB(sc.baseDB))
+		s.ShapeCache = &sc.shapeCache
 		for k, v := range sc.baseShape {
 			s.VerShape[k] = v
 		}
@@ -91,6 +93,7 @@ func (sc *Scenario) Start() (*Sys, *Model, string) {
 		return s, m, ""
 	}
 	s := NewSys(sc.U, sc.Cfg)
+	s.ShapeCache = &sc.shapeCache
 	m := NewModel(sc.U)
 	if _, d := Run(s, m, sc.Prefill); d != "" {
 		return s, m, d
@@ -176,13 +179,17 @@ func Observe(s *Sys, m *Model, probe *Probe, deep bool) string {
 const (
 	ObsContents = iota // Size + full ordered contents (+ root hash of saved versions) of the working tree, every retained version, the open snapshot
 	ObsLight           // + every read API on the working tree
-	ObsDeep            // + every read API on every retained version and the snapshot; by-index lookups for EVERY index (Probe.AllIdx)
+	ObsDeep            // + every read API on every retained version and the snapshot; on the working tree by-index lookups for EVERY index (Probe.AllIdx)
 )
 
 func ObserveMode(s *Sys, m *Model, probe *Probe, mode int) string {
 	deep := mode == ObsDeep
-	if probe != nil && probe.AllIdx && !deep {
+	wprobe := probe
+	if probe != nil && probe.AllIdx { // every index: on the working tree of a new state only (every saved version was a working tree once)
 		probe = &Probe{Keys: probe.Keys}
+		if !deep {
+			wprobe = probe
+		}
 	}
 	if got := s.T.Version(); got != m.Ver {
 		return fmt.Sprintf("Version()=%d, model %d", got, m.Ver)
@@ -192,7 +199,7 @@ func ObserveMode(s *Sys, m *Model, probe *Probe, mode int) string {
 		if mode == ObsContents {
 			d = CheckContents(m, m.Work, s.T)
 		} else {
-			d = CheckReads(m, m.Work, s.T, probe)
+			d = CheckReads(m, m.Work, s.T, wprobe)
 		}
 		if d != "" {
 			return "working tree: " + d
